@@ -74,6 +74,12 @@ def bnEval : Nat → TEnv → AST → Option TVal
               | some (.int x), some (.int y) => some (.bool (decide (x < y)))
               | _, _ => none)
            | _ => none)
+        else if encodeNumber n = [1, 4] then
+          (match args with
+           | [a1, a2] => (match bnEval fuel ρ a1, bnEval fuel ρ a2 with
+              | some (.int x), some (.int y) => if y = 0 then none else some (.int (Int.tmod x y))
+              | _, _ => none)
+           | _ => none)
         else if encodeNumber n = [4, 3] then some (.list (args.map (fun a => (a, ρ))))
         else if encodeNumber n = [7, 2] then
           (match args with
